@@ -25,6 +25,15 @@ func main() {
 		cmdList(os.Args[2:])
 	case "sweep":
 		cmdSweep(os.Args[2:])
+	case "eff":
+		v, err := govc.Load("/repo", "./...")
+		if err != nil {
+			fmt.Fprintln(os.Stderr, err)
+			os.Exit(2)
+		}
+		for _, k := range os.Args[2:] {
+			fmt.Println(k, v.EffectsString(k))
+		}
 	default:
 		fmt.Fprintln(os.Stderr, "unknown command")
 		os.Exit(2)
